@@ -840,9 +840,9 @@ fn handle_hang(o: &Opts, run: u64) -> i32 {
         std::thread::sleep(std::time::Duration::from_millis(50));
     }
     if exited {
-        eprintln!("simcheck: run {run} exceeded the watchdog in the batch but returns in a fresh process: harness error (overloaded machine?), no verdict");
+        eprintln!("simcheck: note: run {run} exceeded the watchdog in the batch but returns in a fresh process (machine stalled?)");
         let _ = std::fs::remove_file(&tmp);
-        return 2;
+        return 3; // spurious: the caller repeats the batch once
     }
     let _ = child.kill();
     let _ = child.wait();
@@ -948,7 +948,36 @@ fn cmd_run(o: &Opts) -> i32 {
         o.prop, o.tier, o.seed, o.runs, o.workers, o.profile
     );
     gen::THOROUGH.store(o.tier == "thorough", Ordering::Relaxed);
-    let b = run_batch(o);
+    let mut b = run_batch(o);
+    if !o.digest_only && !b.timed_out {
+        if let Some(run) = b.hang_run {
+            // a stalled machine can trip the watchdog: confirm in a fresh process, and if the run
+            // returns there, repeat the batch once before giving up
+            match handle_hang(o, run) {
+                3 => {
+                    eprintln!("simcheck: repeating the batch once");
+                    b = run_batch(o);
+                    if let Some(run2) = b.hang_run {
+                        return match handle_hang(o, run2) {
+                            1 => {
+                                write_evidence(o, &b, 1, &[], None);
+                                1
+                            }
+                            _ => {
+                                eprintln!("simcheck: watchdog tripped twice on runs that return in a fresh process: harness error, no verdict");
+                                2
+                            }
+                        };
+                    }
+                }
+                1 => {
+                    write_evidence(o, &b, 1, &[], None);
+                    return 1;
+                }
+                c => return c,
+            }
+        }
+    }
     if o.digest_only {
         println!(
             "DIGEST property={} seed={} runs={} digest={:016x} failures={}",
@@ -963,13 +992,6 @@ fn cmd_run(o: &Opts) -> i32 {
     if b.timed_out {
         eprintln!("simcheck: wall-clock safety cap hit after {} of {} runs: harness error, no verdict", b.runs_done, o.runs);
         return 2;
-    }
-    if let Some(run) = b.hang_run {
-        let code = handle_hang(o, run);
-        if code == 1 {
-            write_evidence(o, &b, 1, &[], None);
-        }
-        return code;
     }
     let known = load_known(&o.known);
     let mut known_hits: Vec<String> = Vec::new();
